@@ -314,7 +314,15 @@ func SelfCheck(sc Scenario) error {
 	if a.e.Failure != b.e.Failure || a.obs != b.obs || strings.Join(a.e.Trace, "\n") != strings.Join(b.e.Trace, "\n") {
 		for i := range a.e.Trace {
 			if i >= len(b.e.Trace) || a.e.Trace[i] != b.e.Trace[i] {
-				return fmt.Errorf("scenario %s is not deterministic: traces differ at step %d (%q vs %q); obs %q vs %q", sc.Name, i, a.e.Trace[i], at(b.e.Trace, i), a.obs, b.obs)
+				lo := i - 12
+				if lo < 0 {
+					lo = 0
+				}
+				w := ""
+				for k := lo; k < i+6 && k < len(a.e.Trace); k++ {
+					w += fmt.Sprintf("\n    %4d  %-40s | %s", k, a.e.Trace[k], at(b.e.Trace, k))
+				}
+				return fmt.Errorf("scenario %s is not deterministic: traces differ at step %d (%q vs %q); obs %q vs %q%s", sc.Name, i, a.e.Trace[i], at(b.e.Trace, i), a.obs, b.obs, w)
 			}
 		}
 		return fmt.Errorf("scenario %s is not deterministic: obs %q vs %q, failure %q vs %q", sc.Name, a.obs, b.obs, a.e.Failure, b.e.Failure)
@@ -358,6 +366,13 @@ type replayFile struct {
 // Main drives a scheduler-based check: self-check, then every job sharded over worker processes; merges the
 // statistics into c and finishes. find maps a scenario name to the scenario.
 func Main(c *lib.Check, scenarios []Scenario, jobs []Job, rule string) {
+	ex := Run(c, scenarios, jobs)
+	c.Finish(rule, ex)
+}
+
+// Run is Main without the final c.Finish (for checks that combine a scheduler phase with other phases). In a
+// worker process and for schedule replays it does not return.
+func Run(c *lib.Check, scenarios []Scenario, jobs []Job) bool {
 	find := func(name string) Scenario {
 		for _, s := range scenarios {
 			if s.Name == name {
@@ -367,6 +382,17 @@ func Main(c *lib.Check, scenarios []Scenario, jobs []Job, rule string) {
 		fmt.Fprintf(os.Stderr, "unknown scenario %q\n", name)
 		os.Exit(2)
 		return Scenario{}
+	}
+	if *flagWorker == "selfcheck" {
+		// determinism self-check of one scenario in a fresh process (the parent may have run free-mode phases whose
+		// background goroutines would disturb a scheduled execution)
+		if err := SelfCheck(find(strings.Split(*flagJob, "\x1f")[0])); err != nil {
+			fmt.Fprintln(os.Stderr, "HARNESS ERROR:", err)
+			os.RemoveAll(scratchBase())
+			os.Exit(3)
+		}
+		os.RemoveAll(scratchBase())
+		os.Exit(0)
 	}
 	if *flagWorker != "" {
 		var i, n, bound int
@@ -386,6 +412,9 @@ func Main(c *lib.Check, scenarios []Scenario, jobs []Job, rule string) {
 	if c.ReplayPath != "" {
 		var r replayFile
 		c.LoadReplay(&r)
+		if r.Scenario == "" {
+			return true // not a schedule replay
+		}
 		sc := find(r.Scenario)
 		o := runOnce(sc, scratchBase()+"/replay", r.Choices, nil, true)
 		for _, l := range o.e.Trace {
@@ -405,11 +434,13 @@ func Main(c *lib.Check, scenarios []Scenario, jobs []Job, rule string) {
 		c.Finish("replay of one recorded schedule", false)
 	}
 	used := map[string]bool{}
+	self, _ := os.Executable()
 	for _, j := range jobs {
 		if !used[j.Scenario] {
 			used[j.Scenario] = true
-			if err := SelfCheck(find(j.Scenario)); err != nil {
-				fmt.Fprintln(os.Stderr, "HARNESS ERROR:", err)
+			cmd := exec.Command(self, "-tier", c.Tier, "-worker", "selfcheck", "-job", j.Scenario)
+			cmd.Stderr = os.Stderr
+			if err := cmd.Run(); err != nil {
 				os.RemoveAll(scratchBase())
 				os.Exit(2)
 			}
@@ -417,7 +448,6 @@ func Main(c *lib.Check, scenarios []Scenario, jobs []Job, rule string) {
 	}
 	exhaustive := true
 	var summaries []any
-	self, _ := os.Executable()
 	for _, j := range jobs {
 		if c.Expired() {
 			c.CapHit(fmt.Sprintf("job %s bound %d not started: time budget exhausted", j.Scenario, j.Bound))
@@ -500,10 +530,12 @@ func Main(c *lib.Check, scenarios []Scenario, jobs []Job, rule string) {
 			c.Sample(map[string]any{"scenario": j.Scenario, "bound": j.Bound, "some_outcomes": outs})
 		}
 	}
-	c.Set("jobs", summaries)
+	c.Set(jobsKey, summaries)
 	os.RemoveAll(scratchBase())
-	c.Finish(rule, exhaustive)
+	return exhaustive
 }
+
+var jobsKey = "jobs"
 
 func trunc(s string, n int) string {
 	if len(s) > n {
